@@ -249,7 +249,10 @@ def run(ctx: Ctx) -> int:
         ctx.need(inner_calls, "parse_known_args: self._parse_known_args(...)")
         for c in inner_calls:
             hs_ = [h for t, part in enclosing_trys(c) if part == "body" for h in t.handlers if h.type is None or set(handler_names(h)) & {"SystemExit", "BaseException"}]
-            good_h = [h for h in hs_ if any(call_leaf(x) in discarders and x.args and root_name(x.args[0]) == "self" for x in calls_in(h)) and any(isinstance(r, ast.Raise) and r.exc is None for r in ast.walk(h))]
+            from .util import guard_atoms as _ga9
+
+            # the discard is unconditional inside the handler: an exit with status 0 (--help, --version) is an exit too
+            good_h = [h for h in hs_ if any(call_leaf(x) in discarders and x.args and root_name(x.args[0]) == "self" and not _ga9(x, stop=h) for x in calls_in(h)) and any(isinstance(r, ast.Raise) and r.exc is None for r in ast.walk(h))]
             ok = bool(good_h)
             ctx.oblige("C09.b", ok, good_h[0] if good_h else c, f"an exiting action inside the argument loop first discards a pending `{a}` request" if ok else f"an action that exits inside the argument loop (--help, --version) leaves a pending `{a}` request on the parser: after parse_args(['--print_config', '--help']) the next successful parse prints the configuration and exits", fn=pka, construct=f"discard {a} on exit from the argument loop")
 
